@@ -230,7 +230,9 @@ func bfs(c *runner.Ctx, init dirState, desc string) {
 	c.Done(len(seen) > 2, ntrans)
 	c.Count("graph_max_depth_sum", int64(maxDepth))
 	c.Outcome(fmt.Sprintf("closed:states=%d", len(seen)))
-	c.Sample(func() interface{} { return map[string]interface{}{"directory": desc, "states": len(seen), "transitions": ntrans, "max_depth": maxDepth} })
+	c.Sample(func() interface{} {
+		return map[string]interface{}{"directory": desc, "states": len(seen), "transitions": ntrans, "max_depth": maxDepth}
+	})
 }
 
 func run(c *runner.Ctx) {
